@@ -44,7 +44,8 @@ type crcCase struct {
 	Cuts []int `json:"cuts"`
 	EOF  int   `json:"eof"`
 	// Prior: an earlier call on the same client (its reply is valid): success | eof | ioerr | partial-stall
-	Prior string `json:"prior,omitempty"`
+	Prior      string `json:"prior,omitempty"`
+	PriorShape string `json:"prior_shape,omitempty"` // request of the earlier call: "" same | short | long
 }
 
 func validReply(c crcCase) ([]byte, error) {
@@ -119,7 +120,7 @@ func runCRC(c crcCase) harness.Result {
 	if c.EOF == 2 {
 		ev = append(ev, xport.Event{Kind: "eof", N: 0})
 	}
-	sc := cli.Scenario{Kind: c.Kind, Req: c.Req, Stream: stream, Events: ev, ReadTimeoutMs: 25, Prior: c.Prior}
+	sc := cli.Scenario{Kind: c.Kind, Req: c.Req, Stream: stream, Events: ev, ReadTimeoutMs: 25, Prior: c.Prior, PriorReq: cli.PriorShapeReq(c.PriorShape)}
 	return judge(c, stream, reply, cli.Run(sc))
 }
 
@@ -243,6 +244,7 @@ func genCRC(t *rapid.T, kinds []string) crcCase {
 	}
 	if rapid.IntRange(0, 3).Draw(t, "with_prior") == 0 {
 		c.Prior = rapid.SampledFrom([]string{"success", "success", "ioerr", "partial-stall"}).Draw(t, "prior")
+		c.PriorShape = rapid.SampledFrom(cli.PriorShapes).Draw(t, "prior_shape")
 	}
 	return c
 }
